@@ -140,6 +140,9 @@ def check(prog: Program, run: Run) -> None:
     # has no gate)
     from . import compu
     compu.conversion_guards(prog, run, "C04.R3", dirs=("phys",))
+    # truncating where the decoder's inverse rounds misrepresents the value (shared with C03.R3)
+    compu.rounding(prog, run, "C04.R2")
+    c01.mux_first_match(prog, run, "C04.R2")
     # a misaligned emplace_bytes call is reported as RuntimeError: a foreign exception
     common.run_as(run, "C02.R3", "C04.R1", lambda r: c02._emplace_alignment(prog, r))
     _required_unknown(prog, run)
